@@ -379,12 +379,13 @@ static int run_ops(char **t, int n)
 
 static void dump(void)
 {
-	char b[4096], *h;
-	size_t k = 0;
+	char b[256], *h;
 	int len, lo;
 	uint8_t big[1024];
-#define P(name, arr) do { h = hexs(arr, sizeof(arr)); k += snprintf(b + k, sizeof(b) - k, "%s=%s ", name, h); free(h); } while (0)
-	k += snprintf(b + k, sizeof(b) - k, "window=%d ", (int) sizeof(buffer));
+	/* one token per constant, written as soon as it is known: a probe that dies leaves the rest readable */
+#define P(name, arr) do { h = hexs(arr, sizeof(arr)); snprintf(b, sizeof(b), "%s=%s", name, h); tok(b); free(h); } while (0)
+#define N(name, val) do { snprintf(b, sizeof(b), "%s=%d", name, (int) (val)); tok(b); } while (0)
+	N("window", sizeof(buffer));
 	P("prompt1", phone_prompt1);
 	P("prompt2", phone_prompt2);
 	P("ack", phone_ack);
@@ -392,12 +393,20 @@ static void dump(void)
 	P("nack", phone_nack);
 	P("ftmtool", ftmtool);
 	P("dnload_cmd", dnload_cmd);
-	k += snprintf(b + k, sizeof(b) - k, "st_prompt1=%d st_prompt2=%d st_downloading=%d ", (int) WAITING_PROMPT1,
-		      (int) WAITING_PROMPT2, (int) DOWNLOADING);
-	/* observed: the largest LEN hdlc_send_to_phone() queues */
+	N("st_prompt1", WAITING_PROMPT1);
+	N("st_prompt2", WAITING_PROMPT2);
+	N("st_downloading", DOWNLOADING);
 	dnload.serial_fd.fd = SERIAL_FD;
 	sercomm_init();
 	memset(big, 0x41, sizeof(big));
+	/* observed: how many octets handle_sercomm_write() offers to one write() at most */
+	hdlc_send_to_phone(5, big, 300);
+	hdlc_send_to_phone(5, big, 300);
+	wr_script = -2;
+	wr_called = 0;
+	handle_sercomm_write();
+	N("write_buf", wr_called ? (int) wr_count : -1);
+	/* observed: the largest LEN hdlc_send_to_phone() queues */
 	lo = -1;
 	for (len = 0; len <= 1000; len++) {
 		unsigned int before = sercomm_tx_queue_depth(5);
@@ -406,13 +415,7 @@ static void dump(void)
 			break;
 		lo = len;
 	}
-	k += snprintf(b + k, sizeof(b) - k, "send_max=%d ", lo);
-	/* observed: how many octets handle_sercomm_write() offers to one write() at most */
-	wr_script = -2;
-	wr_called = 0;
-	handle_sercomm_write();
-	k += snprintf(b + k, sizeof(b) - k, "write_buf=%d", wr_called ? (int) wr_count : -1);
-	tok(b);
+	N("send_max", lo);
 }
 
 int main(void)
